@@ -13,6 +13,7 @@ import (
 
 	"github.com/mmcloughlin/avo/ir"
 	"github.com/mmcloughlin/avo/pass"
+	"github.com/mmcloughlin/avo/reg"
 )
 
 func init() { props["C09"] = c09 }
@@ -187,6 +188,68 @@ func runCFG(p *Prog) (o cfgOutcome) {
 	return
 }
 
+// runCompileLive runs the real pass.Compile (whatever order it applies the passes in).  The graph itself
+// is cleared at the end of Compile, but the live sets computed over it remain on the instructions; for
+// a function without virtual registers and without register self-moves the nodes at the time of the CFG
+// pass are the final nodes, so the live sets must satisfy LiveOut(i) = union LiveIn(succ(i)) for the
+// successors the property demands (Model/CfgLive.v).
+func runCompileLive(p *Prog) (final []ir.Node, lins, louts [][][2]uint64, ok bool) {
+	for _, nd := range p.Nodes {
+		if i, isI := nd.(*ir.Instruction); isI {
+			if len(i.Operands) == 2 && strings.HasPrefix(i.Opcode, "MOV") {
+				if a, okA := i.Operands[0].(reg.Register); okA {
+					if b, okB := i.Operands[1].(reg.Register); okB && a.ID() == b.ID() {
+						return nil, nil, nil, false
+					}
+				}
+			}
+		}
+	}
+	fn := p.Function()
+	f := ir.NewFile()
+	f.AddSection(fn)
+	var before []*ir.Instruction
+	for _, nd := range fn.Nodes {
+		if i, isI := nd.(*ir.Instruction); isI {
+			before = append(before, i)
+		}
+	}
+	failed := false
+	func() {
+		defer func() {
+			if recover() != nil {
+				failed = true
+			}
+		}()
+		if err := pass.Compile.Execute(f); err != nil {
+			failed = true
+		}
+	}()
+	if failed {
+		return nil, nil, nil, false
+	}
+	// an instruction that disappeared and is not an unconditional branch was a self-move created by the
+	// allocation and deleted after the CFG pass: the final nodes are then not the nodes the graph was built on
+	kept := map[*ir.Instruction]bool{}
+	for _, nd := range fn.Nodes {
+		if i, isI := nd.(*ir.Instruction); isI {
+			kept[i] = true
+		}
+	}
+	for _, i := range before {
+		if !kept[i] && !i.IsUnconditionalBranch() {
+			return nil, nil, nil, false
+		}
+	}
+	for _, nd := range fn.Nodes {
+		if i, isI := nd.(*ir.Instruction); isI {
+			lins = append(lins, maskList(i.LiveIn))
+			louts = append(louts, maskList(i.LiveOut))
+		}
+	}
+	return snapshotNodes(fn), lins, louts, true
+}
+
 func (o cfgOutcome) Coq() string {
 	if o.Err != 0 {
 		return fmt.Sprintf("(CfgErr %d)", o.Err)
@@ -240,6 +303,29 @@ func cfgCorpus() []*Prog {
 		}),
 		mk("terminal conditional branch (both flags)", func(add func(ir.Node)) {
 			add(ir.Label("a")); add(&ir.Instruction{Opcode: "X", Operands: opsLabel("a"), IsBranch: true, IsConditional: true, IsTerminal: true}); add(nop())
+		}),
+		mk("referenced label sits on a jump to the following label", func(add func(ir.Node)) {
+			add(nop()); add(br("JNE", "x", true)); add(nop()); add(ir.Label("x")); add(br("JMP", "t", false)); add(ir.Label("t")); add(nop()); add(ret())
+		}),
+		mk("referenced label sits on a jump to the following label; a register is live only along that edge", func(add func(ir.Node)) {
+			ins := func(i *ir.Instruction, err error) {
+				if err != nil {
+					die(err)
+				}
+				add(i)
+			}
+			ins(x86.MOVQ(operand.U32(42), reg.RAX))
+			ins(x86.TESTQ(reg.RCX, reg.RCX))
+			add(br("JNE", "x", true))
+			ins(x86.MOVQ(operand.U32(1), reg.RAX))
+			add(ir.Label("x"))
+			add(br("JMP", "t", false))
+			add(ir.Label("t"))
+			ins(x86.ADDQ(reg.RAX, reg.RBX))
+			add(ret())
+		}),
+		mk("chain of jumps to following labels, each label referenced from above", func(add func(ir.Node)) {
+			add(br("JE", "a", true)); add(br("JNE", "b", true)); add(ir.Label("a")); add(br("JMP", "b", false)); add(ir.Label("b")); add(br("JMP", "c", false)); add(ir.Label("c")); add(ret())
 		}),
 		mk("empty function", func(add func(ir.Node)) {}),
 		mk("only a label", func(add func(ir.Node)) { add(ir.Label("a")) }),
@@ -310,6 +396,40 @@ func c09(c *Ctx) {
 		files = append(files, name)
 		o.ExpectEmpty(name, "R_mismatch", "mismatch", "model label_target/cfg vs pass.LabelTarget+pass.CFG (successors, predecessors, error kind)")
 		o.ExpectEmpty(name, "R_violation", "violation", "CFG property: successors/predecessors per the property text, error iff duplicate/undefined/trailing label or non-label branch")
+	}
+	// the same property on what the real pass.Compile leaves behind (the passes in ITS order)
+	{
+		var rows []string
+		base := 1000000
+		ne := 0
+		for _, p := range progs {
+			if p.Tags["opcode-sweep"] {
+				continue
+			}
+			final, lins, louts, ok := runCompileLive(p)
+			if !ok {
+				continue
+			}
+			ll := func(l [][][2]uint64) string {
+				ss := make([]string, len(l))
+				for i, e := range l {
+					ss[i] = cPairs(e)
+				}
+				return cList(ss)
+			}
+			rows = append(rows, "("+cNodes(final)+", ("+ll(lins)+", "+ll(louts)+"))")
+			o.Plan.Cases = append(o.Plan.Cases, Case{Index: base + ne, Key: "cfg-e2e:" + p.Desc, Desc: "pass.Compile, then the live sets of the compiled function against the successors the property demands: " + p.Text(), Input: map[string]any{"nodes": p.Text()}, Nontrivial: true})
+			ne++
+		}
+		var b strings.Builder
+		b.WriteString(progHeader)
+		b.WriteString("From Avo Require Import Model.CfgLive.\n")
+		fmt.Fprintf(&b, "Definition cases : list cfg_live_case := %s.\n", cListNL(rows))
+		fmt.Fprintf(&b, "Definition R_e2e_violation := Eval vm_compute in List.map (N.add %d) (indices_where_ (fun c => negb (e2e_cfg_live_ok c)) cases).\nPrint R_e2e_violation.\n", base)
+		o.WriteFile("E2E.v", b.String())
+		files = append(files, "E2E.v")
+		o.ExpectEmpty("E2E.v", "R_e2e_violation", "violation", "after the real pass.Compile the live sets do not satisfy LiveOut(i) = union of LiveIn over the successors the property demands: the graph the pipeline used was not the graph of the function (stale label targets, edges to deleted instructions)")
+		o.Plan.Stats["compiled_end_to_end"] = ne
 	}
 	o.Stage(files...)
 	o.Plan.Rule = "directed skeletons (duplicate/consecutive/trailing labels, self-loops, jumps into/out of loops, branch last, unreachable blocks, non-label branches) + random node sequences over {label, comment, real and synthetic instructions, conditional/unconditional branches, RET}, 25% from a malformed stream; non-trivial = at least one branch and more than two nodes; distinct by node text"
